@@ -45,7 +45,7 @@ mut("c03-max-length-refused", "C03", MC,
 mut("c03-block-write-le", "C03", MC,
     "        if len(bytes_to_write) < self.remaining_chars:",
     "        if len(bytes_to_write) <= self.remaining_chars:",
-    note="write that exactly fills the block skips the trailer")
+    expect="clean", note="negative control: equivalent edit - the trailer is simply left pending (remaining_chars == 0) and written by the next write / finalise")
 mut("c03-bytes-to-list-drops-blocked", "C03", MC,
     "    return [record for record in VbsReader(file_in, **kwargs)]",
     "    return [record for record in VbsReader(file_in)]",
@@ -58,11 +58,16 @@ mut("c03-length-packed-wrong-side", "C03", MC,
 # ---- C04 ------------------------------------------------------------------------------------
 mut("c04-fits-le", "C04", MC,
     "        if len(bytes_to_write) < self.remaining_chars:",
-    "        if len(bytes_to_write) <= self.remaining_chars:")
+    "        if len(bytes_to_write) <= self.remaining_chars:",
+    expect="clean", note="negative control: equivalent edit (trailer left pending)")
+mut("c03-reader-max-off-by-one-knob", "C03", MC,
+    "        record = self.vbs_data.read(record_length)\n        if len(record) != record_length:",
+    "        record = self.vbs_data.read(record_length if record_length != 1012 else 1011)\n        if len(record) != record_length:",
+    note="a record of exactly one payload is read short")
 mut("c04-whole-block-ge", "C04", MC,
     "        while len(bytes_to_write) > 1012:",
     "        while len(bytes_to_write) >= 1012:",
-    note="a remainder of exactly 1012 is written as a block, then remaining_chars = 1012: changes the trailer-pending situation")
+    expect="clean", note="negative control: equivalent refactor - a remainder of exactly 1012 is written as a whole block at once instead of leaving the trailer pending")
 mut("c04-finalise-pad-short", "C04", MC,
     "        self.file_obj.write(self.PAD_CHAR * (self.remaining_chars + 2))",
     "        self.file_obj.write(self.PAD_CHAR * (self.remaining_chars + 2 if self.remaining_chars else 1))")
@@ -91,13 +96,36 @@ mut("c05-validate-skips-inner-trailers", "C05", MC,
 mut("c05-validate-accepts-short-last", "C05", MC,
     "        if len(record) != 1014:\n            raise MciIpmDataError('Invalid record size for 1014 blocked')",
     "        if len(record) != 1014 and len(record) < 1000:\n            raise MciIpmDataError('Invalid record size for 1014 blocked')")
+mut("c05-revert-nosize-fix", "C05", MC,
+    "        if read_all:  # no size requested: hand over everything that remains\n            bytes_to_read = len(self.buffer)\n",
+    "",
+    note="reverts fix 2f16548: read() with no size returns b''")
+mut("c05-nosize-reads-only-buffer", "C05", MC,
+    "        read_all = True if not bytes_to_read else False\n        while read_all or len(self.buffer) <= bytes_to_read:",
+    "        read_all = True if not bytes_to_read else False\n        while (read_all and not self.buffer) or (not read_all and len(self.buffer) <= bytes_to_read):",
+    note="read() with no size hands over only what is buffered when the buffer is non-empty (needs a sized read first)")
 mut("c05-neg-refill-lt", "C05", MC,
     "        while read_all or len(self.buffer) <= bytes_to_read:",
     "        while read_all or len(self.buffer) < bytes_to_read:",
     expect="clean", note="negative control")
 
 # ---- C11 ------------------------------------------------------------------------------------
-# (filled in after the C11 repair: reversals of the fix)
+mut("c11-revert-guard", "C11", MC,
+    "        if self._finalised:\n            return\n",
+    "",
+    note="reverts fix 5312702: a second finalisation overwrites the first record length")
+mut("c11-guard-only-in-exit", "C11", MC,
+    "    def __exit__(self, exc_type, exc_val, exc_tb) -> None:\n        self.close()",
+    "    def __exit__(self, exc_type, exc_val, exc_tb) -> None:\n        self.close()\n        self._finalised = False",
+    note="exit re-arms the writer: only the history exit;close (close after leaving the with block) breaks")
+mut("c11-blocked-pads-twice", "C11", MC,
+    "        self.out_file.seek(0)\n        self._finalised = True",
+    "        self.out_file.seek(0)\n        self._finalised = not isinstance(self.out_file, Block1014)",
+    note="guard not set for 1014 output: second finalisation pads and overwrites, blocked files only")
+mut("c11-third-close-breaks", "C11", MC,
+    "        if self._finalised:\n            return\n",
+    "        if self._finalised:\n            self._finalised = None\n            return\n        if self._finalised is None:\n            self.out_file.seek(0)\n",
+    note="the second finalisation disarms the guard: only histories with >= 3 finalisations break")
 
 # ---- C06 ------------------------------------------------------------------------------------
 mut("c06-class-level-counter", "C06", MC,
